@@ -9,6 +9,7 @@ import (
 	"fmt"
 	"net"
 	"sync"
+	"sync/atomic"
 	"time"
 
 	"github.com/spf13/viper"
@@ -149,7 +150,15 @@ type RecBackend struct {
 	SyncGate *Gate
 	CbGate   *Gate
 	EvGate   *Gate
+	// Stall, if set, says for the call with the given index how long (simulated time) the synchronous
+	// phase and the completion callback are held up: a slow backend. It is a pure function of tables
+	// the driver drew before the run's first flush.
+	Stall    func(callIdx int) (sync, cb time.Duration)
+	stalling atomic.Int32
 }
+
+// Stalling reports how many synchronous phases are being held up right now.
+func (b *RecBackend) Stalling() int { return int(b.stalling.Load()) }
 
 func (b *RecBackend) Name() string { return b.BName }
 
@@ -162,7 +171,19 @@ func (b *RecBackend) SendMetricsAsync(ctx context.Context, mm *gostatsd.MetricMa
 	if b.SyncGate != nil {
 		b.SyncGate.Arrive(CanonObs(obs), c)
 	}
+	var stallSync, stallCb time.Duration
+	if b.Stall != nil {
+		stallSync, stallCb = b.Stall(c.Idx)
+	}
+	if stallSync > 0 {
+		b.stalling.Add(1)
+		time.Sleep(stallSync)
+		b.stalling.Add(-1)
+	}
 	go func() {
+		if stallCb > 0 {
+			time.Sleep(stallCb)
+		}
 		if b.CbGate != nil {
 			b.CbGate.Arrive(CanonObs(obs), c)
 		}
